@@ -67,7 +67,7 @@ chk('C03', 'model_checking',
     'RouteValid.tla judges every displayed route (after nudging, with buffer, both modes): at least two points, starts/ends at the attachments, orthogonal segments axis-parallel, and no segment meets '
     'the open interior of a shape not containing an endpoint -- decided exactly by the separating-axis theorem with orientation tests on the 2^-10 lattice, with a 2-unit tolerance that can only miss shallow '
     'penetrations. The antecedent "an obstacle-free path exists" is decided by TLC reachability in PolyPath.tla for every suspicious record. Scenes: TLC-enumerated sets of <=2 rectangles / convex polygons '
-    '(touching and collinear sides included) and seeded random scenes (<=8 shapes, <=6 connectors, buffer 0|2, all nudging option combinations, ends inside shapes), every chain of three touching rectangles of the enumerated family in every insertion order, and rows A|B|C of butted rectangles whose outer corners lie inside opposite sides of the middle one.',
+    '(touching and collinear sides included) and seeded random scenes (<=8 shapes, <=6 connectors, buffer 0|2, all nudging option combinations, ends inside shapes), every chain of three touching rectangles of the enumerated family in every insertion order, rows A|B|C of butted rectangles whose outer corners lie inside opposite sides of the middle one, and object-level histories (nested connectors between side pins next to a wall) whose processing-point records are judged by the same RouteValid.',
     'Known findings: F13 (option nudgeOrthogonalSegmentsConnectedToShapes moves free endpoints), F4, F23 (mitred buffer polygon at acute corners), F11 (nudging assertion).',
     'TLA+ declarative route-validity specification (separating-axis predicate); record validation; TLC reachability for the antecedent', '4/C03')
 
@@ -75,7 +75,7 @@ chk('C06', 'model_checking',
     'RouterApi.tla models the Router as the API user sees it: scene + action queue with the de-duplication rules of addShape/moveShape (relative, and absolute = resize)/deleteShape/modifyConnector, one action per public call, '
     'transactions on and off; TLC checks for every interleaving (bounded) that the queue stays well formed and that the processed scene is what the calls add up to. Histories are behaviours of that '
     'specification (TLC simulation) replayed on one long-lived Router; RouterTrace.tla validates call sequence + the scene the code reports at every processing point; RouteInc.tla judges every route at every '
-    'processing point: valid for the final scene (RouteValid), cost(incremental) <= cost(fresh router) as integer-square-root intervals, a no-op transaction changes nothing (bit-exact).',
+    'processing point: valid for the final scene (RouteValid), cost(incremental) <= cost(fresh router) as integer-square-root intervals, a no-op transaction changes nothing (bit-exact). Besides the TLC-generated histories: hand-written families that are behaviours of the same specification (shapes butted against each other, a wall moved next to a route, an end inside a shape that is then moved away, two connectors sharing a visibility edge that a later shape blocks) and a shapes-only profile.',
     'Rectangular shapes, 3 shapes / 2 connectors, documented preconditions and interior-disjointness as generator rules. The dead selective-reroute test was repaired (fix: commit a8080b2). F4 is a known finding.',
     'TLA+ API state machine; TLC-generated histories replayed; trace validation; record validation against a fresh router', '4/C06')
 
@@ -97,8 +97,8 @@ chk('C15', 'model_checking',
 chk('C11', 'model_checking',
     'Pins.tla judges the projection recorded at every processing point of API histories that are behaviours of Lifecycle.tla: pin positions are re-derived from the pin definition and the CURRENT shape rectangle '
     '(so pins follow moves/resizes); every pin-attached end lies on a pin of its class with an existential matching in which no exclusive pin serves two ends; orthogonal routes leave pins in a permitted direction '
-    '(positive buffer); junction ends end at the junction; checkpoints are visited in order.',
-    'Executions that crash belong to C15. Demand beyond pin capacity is outside ("provided a free pin exists"). 2 shapes, pin catalogue of 6, 3 connectors.',
+    '(positive buffer); junction ends end at the junction; checkpoints are visited in order. Capacity histories: every subset of the exclusive pins of one class on a shape with exactly as many connectors attached.',
+    'Executions that crash belong to C15. Demand beyond pin capacity is outside ("provided a free pin exists"). 2 shapes, pin catalogue of 10 (two pins of one class at one place differing in inside offset included), 3 connectors. The transaction mode is switched only with an empty action list. Known findings F39, F40, F41, F60.',
     'TLA+ protocol-generated histories replayed; record validation with existential pin matching', '4/C11')
 chk('C12', 'model_checking',
     'Hyperedge.tla builds the abstract graph (junction nodes, one leaf per non-junction connector end, an edge per connector) from the projection recorded after registerHyperedgeForRerouting + processTransaction '
